@@ -4,6 +4,7 @@ from fractions import Fraction
 from ..engine import Prop, Judgement
 from ..numcmp import close, near_int
 from .. import brokerlib as bl
+from .. import recase as rc
 from .c10 import lo_knife
 from .c11 import ls_knife
 
@@ -78,6 +79,9 @@ def gen_case(rng, exact):
                 r['no_alpha'] = False
         c['stream'] += ':persistent'
     c['rounds'] = rounds
+    if rng.random() < 0.15:
+        c = rc.recase(c, rc.mapping(rng, collide=rng.random() < 0.3))        # symbols with lower-case letters
+        c['stream'] += ':mixed-case-symbols'
     return c
 
 
